@@ -118,7 +118,19 @@ impl Case for AddrCase {
                 format!("addr {k} {} {port}", hexs(&ip))
             }
             1 | 3 => {
-                let ip: Vec<u8> = (0..16).map(|_| byte(rng)).collect();
+                let mut ip: Vec<u8> = (0..16).map(|_| byte(rng)).collect();
+                // structured addresses a decoder might special-case
+                match rng.below(12) {
+                    0 => { ip[..10].fill(0); ip[10] = 0xff; ip[11] = 0xff; }          // ::ffff:a.b.c.d (IPv4-mapped)
+                    1 => { ip[..12].fill(0); }                                        // ::a.b.c.d (IPv4-compatible)
+                    2 => { ip.fill(0); ip[15] = 1; }                                  // ::1
+                    3 => { ip.fill(0); }                                              // ::
+                    4 => { ip[0] = 0xfe; ip[1] = 0x80; ip[2..8].fill(0); }            // fe80::/64 link-local
+                    5 => { ip[0] = 0xff; ip[1] = 0x02; }                              // multicast
+                    6 => { ip[..12].copy_from_slice(&[0, 0x64, 0xff, 0x9b, 0, 0, 0, 0, 0, 0, 0, 0]); } // 64:ff9b::/96
+                    7 => { ip[0] = 0x20; ip[1] = 0x02; }                              // 2002::/16 (6to4)
+                    _ => {}
+                }
                 let flow = if rng.chance(1, 3) { 0 } else { rng.next() as u32 };
                 let scope = if rng.chance(1, 3) { 0 } else { rng.next() as u32 };
                 let k = if rng.chance(1, 2) { "v6" } else { "any6" };
